@@ -216,6 +216,7 @@ _ARITY = {
     "partial": 4,
     "gen": 3,
     "obj": 3,
+    "enum": 3,
     "nt": 3,
     "excobj": 2,
     "free": 2,
@@ -316,6 +317,8 @@ def show(t, depth=0):
         return "partial(%s)" % ", ".join([show(t[1], d)] + [show(x, d) for x in t[2]] + ["%s=%s" % (n, show(v, d)) for n, v in t[3]])
     if k == "nt":
         return "%s(%s)" % (t[1].split(".")[-1], ", ".join(show(x, d) for x in t[2]))
+    if k == "enum":
+        return "%s.%s" % (t[1].split(".")[-1], t[2])
     if k == "obj":
         return "<%s object created at %s>" % (t[1].split(".")[-1], t[2].loc() if hasattr(t[2], "loc") else t[2])
     if k == "gen":
